@@ -189,6 +189,15 @@ func (*c03) Gen(rng *RNG, tier string) []Case {
 			fmt.Sprintf("mem biggetd %s %d", tok("a"), size),
 		}})
 	}
+	if tier == "thorough" {
+		// a reader that takes its time (longer than any plausible per-request timeout): nothing between the
+		// caller and the registry may cut the body short
+		cases = append(cases, Case{Tag: "slow-reader", Lines: []string{
+			"wire init 0 1 0000 0 0",
+			fmt.Sprintf("mem bigpush %s %s %d %s", tok("a"), tok("slow"), 24<<20, tok(mtOpaque)),
+			fmt.Sprintf("mem slowget %s %s %d", tok("a"), tok("slow"), 32000),
+		}})
+	}
 	// large manifests on both sides of the client's in-memory threshold (only with the digest omitted does it matter)
 	for _, size := range []int{128*1024 - 1, 128 * 1024, 128*1024 + 1} {
 		data := []byte(strings.Repeat("m", size))
